@@ -91,6 +91,13 @@ CHECKS = {
         note="Trusted: the reference model (bash manual + docstrings); ambiguous forms (dir named '-' or '+1', logical vs physical '..') accept every documented reading; permission failures are made real by dropping CAP_DAC_OVERRIDE in the worker.",
         design="2/C16",
     ),
+    "C09": dict(
+        category="exploration",
+        technique="property-based testing with resource snapshots as invariant: generated pipeline shapes x failure modes x capture forms x repetition counts, /proc-level before/after comparison; races hunted by repetition; pty workers for terminal ownership in the thorough tier",
+        text="Pipelines of 1-4 stages (external ok/failing/not found/permission denied, callable alias ok/raising/writing a lot, consumer exiting early, stage never reading stdin) x capture form x redirects x $THREAD_SUBPROCS x repetition count (1, 3, 30; thorough 300) and sequences of commands run through the real Execer; after each (grace <= 2 s) the worker's open descriptors with link targets, children (zombie or running), OS-level threads, cwd, identity of sys.std*, signal handlers, XSH.env (effective values) and os.environ are compared at three strengths: immediately, steady state (N repetitions == 1 repetition) and strict after XSH.lastcmd was displaced; a self-sent SIGINT must raise KeyboardInterrupt. Seven recorded defects (three of them races found by repetition) tolerated only in their exact symptom on their shape.",
+        note="Trusted: /proc as the observer; garbage collection is disabled inside a case (what gc.collect() releases is counted, not failed); shapes of open findings are thinned (counted) because each costs 2-20 s; terminal ownership is only covered by the thorough tier's pty workers; background `&` pipelines are not generated.",
+        design="2/C09",
+    ),
     "C10": dict(
         category="exploration",
         technique="property-based round-trip testing of every registered variable's validate/convert/detype triple + stateful model-based testing (Hypothesis RuleBasedStateMachine) of the launch view with real child processes sampled",
